@@ -1085,9 +1085,14 @@ Lemma wire_remote_del w s id h : intern (w_names w) id = Some h ->
   wnext w s (WRemoteDel (key_of_id (w_pool w) id)) = dnext s (DRemoteDel h).
 Proof. intros H. unfold wnext, wstep, wtrans. rewrite holder_of_key_of_id, H. reflexivity. Qed.
 
-Lemma wire_remote_put w s id h a pl ep : intern (w_names w) id = Some h ->
-  wnext w s (WRemotePut (key_of_id (w_pool w) id) id a pl ep) = dnext s (DRemotePut h a pl ep).
-Proof. intros H. unfold wnext, wstep, wtrans. rewrite holder_of_key_of_id, H, N.eqb_refl. reflexivity. Qed.
+(* whatever id the JSON value carries ([vid]: the code does not use it) *)
+Lemma wire_remote_put w s id vid h a pl ep : intern (w_names w) id = Some h ->
+  wnext w s (WRemotePut (key_of_id (w_pool w) id) vid a pl ep) = dnext s (DRemotePut h a pl ep).
+Proof. intros H. unfold wnext, wstep, wtrans. rewrite holder_of_key_of_id, H. reflexivity. Qed.
+
+Lemma wire_echo w s id vid h r : intern (w_names w) id = Some h ->
+  wnext w s (WEcho (key_of_id (w_pool w) id) (Some (vid, r))) = dnext s (DEcho h (Some r)).
+Proof. intros H. unfold wnext, wstep, wtrans. rewrite holder_of_key_of_id, H. reflexivity. Qed.
 
 Lemma wire_remote_del_applies w s id h : intern (w_names w) id = Some h ->
   d_lookup (wnext w s (WRemoteDel (key_of_id (w_pool w) id))) h = None.
@@ -1101,4 +1106,175 @@ Proof.
   unfold handle_remote, d_lookup, d_lease, set_store, set_bm in *. cbn [d_cfg d_bm d_store]. rewrite Hl.
   cbn [d_cfg d_bm]. rewrite Hl. rewrite release_alloc_aget. destruct (N.eqb_spec h h'); [congruence|].
   unfold unit_of. rewrite bnext_geo. reflexivity.
+Qed.
+
+(* ---- pool ids: keys of different pools ---- *)
+Definition no_slash (p : bytes) : bool := forallb (fun b => negb (b =? 47)) p.
+
+Lemma no_slash_notin p : no_slash p = true -> ~ In 47 p.
+Proof.
+  unfold no_slash. rewrite forallb_forall. intros H Hin. apply H in Hin. rewrite N.eqb_refl in Hin. discriminate.
+Qed.
+
+Lemma split_at_first (x : N) (p1 : list N) : forall p2 t1 t2,
+  ~ In x p1 -> ~ In x p2 -> p1 ++ x :: t1 = p2 ++ x :: t2 -> p1 = p2 /\ t1 = t2.
+Proof.
+  induction p1 as [|a p1 IH]; intros [|b p2] t1 t2 H1 H2 E; cbn [app] in E.
+  - injection E as ->. split; reflexivity.
+  - injection E as -> _. exfalso. apply H2. left. reflexivity.
+  - injection E as -> _. exfalso. apply H1. left. reflexivity.
+  - injection E as -> E. destruct (IH p2 t1 t2) as [-> ->]; [|  |exact E|split; reflexivity].
+    + intros Hin. apply H1. right. exact Hin.
+    + intros Hin. apply H2. right. exact Hin.
+Qed.
+
+(* pools whose ids contain no '/' never share a key *)
+Lemma key_of_id_inj_pools p1 id1 p2 id2 : no_slash p1 = true -> no_slash p2 = true ->
+  key_of_id p1 id1 = key_of_id p2 id2 -> p1 = p2 /\ id1 = id2.
+Proof.
+  intros H1 H2 E. unfold key_of_id in E. apply app_inv_head in E. cbn [app] in E.
+  apply (split_at_first 47); [apply no_slash_notin; exact H1|apply no_slash_notin; exact H2|exact E].
+Qed.
+
+(* ... in general they do: pool "a" with subscriber "b/c" and pool "a/b" with subscriber "c" *)
+Lemma key_of_id_pools_refuted : exists p1 id1 p2 id2, p1 <> p2 /\ key_of_id p1 id1 = key_of_id p2 id2.
+Proof. exists [97], [98; 47; 99], [97; 47; 98], [99]. split; [discriminate|reflexivity]. Qed.
+
+(* and the pool with the shorter id reads (Query / Watch by prefix) the other pool's records as its own
+   subscriber "q/id" *)
+Lemma nested_pool_alias p q id : id_of_key p (key_of_id (p ++ 47 :: q) id) = Some (q ++ 47 :: id).
+Proof.
+  replace (key_of_id (p ++ 47 :: q) id) with (key_of_id p (q ++ 47 :: id)); [apply id_of_key_of_id|].
+  unfold key_of_id. f_equal. rewrite <- app_assoc. reflexivity.
+Qed.
+
+(* ================================================================================ *)
+(* Lease mode: what exactly survives a restart                                        *)
+
+(* a freshly started allocator is at epoch 2: no record is ever seen as expired by loadAllocations,
+   its clean-up branch is dead code at Start *)
+Lemma lease_expired_fresh c ep : lease_expired (fresh_ep c) ep = false.
+Proof.
+  unfold lease_expired, fresh_ep, e_init. cbn [e_epoch]. change (2 - 2) with 0.
+  destruct (ep <? 0) eqn:E; [apply N.ltb_lt in E; lia|]. apply andb_false_r.
+Qed.
+
+Lemma e_alloc_epoch e h : e_epoch (fst (e_alloc e h)) = e_epoch e.
+Proof.
+  unfold e_alloc. destruct (aget h (e_sub e)); [reflexivity|]. destruct (e_find e); reflexivity.
+Qed.
+
+Lemma load_lease_store l : forall e st, e_epoch e = 2 ->
+  snd (load_lease (e, st) l) = st /\ e_epoch (fst (load_lease (e, st) l)) = 2.
+Proof.
+  induction l as [|x tl IH]; intros e st He; [split; [reflexivity|exact He]|].
+  rewrite load_lease_cons.
+  assert (Hx : lease_expired e (r_ep (snd x)) = false).
+  { unfold lease_expired. rewrite He. change (2 - 2) with 0.
+    destruct (r_ep (snd x) <? 0) eqn:E; [apply N.ltb_lt in E; lia|]. apply andb_false_r. }
+  rewrite Hx. apply IH. rewrite e_alloc_epoch. exact He.
+Qed.
+
+(* the store is untouched by a lease-mode restart *)
+Lemma restart_store_lease s l : d_store (restart_with l s) = d_store s.
+Proof.
+  unfold restart_with. destruct (c_lease (d_cfg s)); [|reflexivity].
+  pose proof (load_lease_store l (fresh_ep (d_cfg s)) (d_store s) eq_refl) as [H _].
+  destruct (load_lease (fresh_ep (d_cfg s), d_store s) l) as [e st]. cbn in *. exact H.
+Qed.
+
+(* positional relabelling: load_lease never reads the stored address *)
+Fixpoint relabel (base k : N) (l : list (N * rec)) : list (N * rec) :=
+  match l with
+  | [] => []
+  | (h, r) :: tl => (h, {| r_addr := add_nocarry32 base k; r_pl := r_pl r; r_ep := r_ep r |}) :: relabel base (k + 1) tl
+  end.
+
+Lemma load_lease_relabel base l : forall k es, load_lease es (relabel base k l) = load_lease es l.
+Proof.
+  induction l as [|[h r] tl IH]; intros k [e st]; [reflexivity|].
+  cbn [relabel]. rewrite !load_lease_cons. cbn [fst snd r_ep].
+  destruct (lease_expired e (r_ep r)); apply IH.
+Qed.
+
+Lemma relabel_keys base l : forall k, map fst (relabel base k l) = map fst l.
+Proof. induction l as [|[h r] tl IH]; intros k; [reflexivity|]. cbn [relabel map fst]. rewrite IH. reflexivity. Qed.
+
+Lemma relabel_length base l : forall k, length (relabel base k l) = length l.
+Proof. induction l as [|[h r] tl IH]; intros k; [reflexivity|]. cbn [relabel length]. rewrite IH. reflexivity. Qed.
+
+Lemma relabel_order base l : forall k, lease_order_ok base k (relabel base k l) = true.
+Proof.
+  induction l as [|[h r] tl IH]; intros k; [reflexivity|]. cbn [relabel lease_order_ok r_addr].
+  rewrite N.eqb_refl. apply IH.
+Qed.
+
+Lemma relabel_nth base l : forall k n h r, nth_error l n = Some (h, r) ->
+  exists r', In (h, r') (relabel base k l) /\ r_addr r' = add_nocarry32 base (k + N.of_nat n).
+Proof.
+  induction l as [|[h0 r0] tl IH]; intros k n h r Hn; [destruct n; discriminate|].
+  destruct n as [|n]; cbn [nth_error] in Hn.
+  - injection Hn as -> ->. eexists. split; [left; reflexivity|]. cbn [r_addr]. rewrite N.add_0_r. reflexivity.
+  - destruct (IH (k + 1) n h r Hn) as (r' & Hin & Ha). exists r'. split; [right; exact Hin|].
+    rewrite Ha. f_equal. lia.
+Qed.
+
+(* guard of the positional theorem: grace period 1 (or 0 = default 1), distinct subscribers, they fit *)
+Definition lease_fits (c : cfg) (l : list (N * rec)) : bool :=
+  (e_grace (fresh_ep c) mod 256 <? 2) && nodupb (map fst l) && (N.of_nat (length l) + 2 <=? e_total (fresh_ep c)).
+
+(* exactly what survives: the SET of stored subscribers; the n-th enumerated record's subscriber holds
+   the (n+1)-th pool address, whatever address the record carries *)
+Lemma restart_lease_positional s l n h r : d_lease s = true -> lease_fits (d_cfg s) l = true ->
+  nth_error l n = Some (h, r) ->
+  d_lookup (restart_with l s) h = Some (add_nocarry32 (g_base (c_geo (d_cfg s))) (1 + N.of_nat n)).
+Proof.
+  intros Hl Hg Hn. rewrite restart_lookup_lease by exact Hl.
+  unfold lease_fits in Hg. apply andb_true_iff in Hg as [Hg Hlen]. apply andb_true_iff in Hg as [Hgr Hnd].
+  apply N.ltb_lt in Hgr. apply N.leb_le in Hlen. apply nodupb_nodup in Hnd.
+  set (base := g_base (c_geo (d_cfg s))).
+  rewrite <- (load_lease_relabel base l 1).
+  destruct (relabel_nth base l 1 n h r Hn) as (r' & Hin & Ha). rewrite <- Ha.
+  refine (proj2 (load_lease_spec (relabel base 1 l) (fresh_ep (d_cfg s)) (d_store s) 1 _ _ _ (N.le_refl _) _)
+                (relabel_order base l 1) h r' Hin).
+  - split; [reflexivity|]. split; [reflexivity|]. split; [exact Hgr|]. intros; reflexivity.
+  - rewrite relabel_keys. exact Hnd.
+  - intros; reflexivity.
+  - rewrite relabel_length. lia.
+Qed.
+
+Lemma lease_guard_fits c l : lease_guard c l = true -> lease_fits c l = true.
+Proof.
+  unfold lease_guard, lease_fits. intros H. apply andb_true_iff in H as [H _]. exact H.
+Qed.
+
+(* grace period >= 2 (mod 256): a fresh allocator has no free slot at all (every generation-0 slot is
+   within the grace window of epoch 2), so NOBODY is restored *)
+Lemma find_fromP_none p f : (forall i, f i = false) -> forall i, find_fromP p f i = None.
+Proof.
+  intros Hf. induction p as [q IH|q IH|]; intros i; cbn [find_fromP]; rewrite ?Hf, ?IH; reflexivity.
+Qed.
+
+Lemma e_find_fresh_none c : 2 <= e_grace (fresh_ep c) mod 256 -> e_find (fresh_ep c) = None.
+Proof.
+  intros Hg. unfold e_find.
+  assert (Hf : forall k, e_slot_ok (fresh_ep c) k = false).
+  { intros k. unfold e_slot_ok. apply andb_false_iff. right. unfold e_free, e_gen, e_cur.
+    cbn [fresh_ep e_init e_gens e_epoch aget]. change ((2 mod 4 + 4 - 0) mod 4) with 2. apply N.ltb_ge. exact Hg. }
+  unfold find_from. destruct (e_total (fresh_ep c)); [reflexivity|]. rewrite find_fromP_none by exact Hf. reflexivity.
+Qed.
+
+Lemma load_lease_stuck c l : e_find (fresh_ep c) = None -> forall st,
+  fst (load_lease (fresh_ep c, st) l) = fresh_ep c.
+Proof.
+  intros Hf. induction l as [|x tl IH]; intros st; [reflexivity|].
+  rewrite load_lease_cons, lease_expired_fresh. unfold e_alloc at 1.
+  change (aget (fst x) (e_sub (fresh_ep c))) with (@None N). rewrite Hf. cbn [fst]. apply IH.
+Qed.
+
+Lemma restart_lease_grace2_nobody s l h : d_lease s = true -> 2 <= e_grace (fresh_ep (d_cfg s)) mod 256 ->
+  d_lookup (restart_with l s) h = None.
+Proof.
+  intros Hl Hg. rewrite restart_lookup_lease by exact Hl.
+  rewrite (load_lease_stuck _ l (e_find_fresh_none _ Hg)). reflexivity.
 Qed.
